@@ -2,137 +2,305 @@ import PoryProofs.HoistFrame
 /-
 Command ids and argument slots of the implicit data (helper module of C06c, part 4).
 
-* `KN m` : `m` does not change `nextCmdId`; proved for every parser function below the statement level
-  except `parseCommandStatement` and its callers.
+* `TFrame m` : `m` changes only the token window — in particular not `nextCmdId`; proved for every parser
+  function below the statement level except `parseCommandStatement` and its callers (the proofs are those
+  of ParserFrames*.lean with the stronger postcondition).
 * `parseCommandStatement_slots` : a command statement takes the id `nextCmdId`, increments the counter by
   one, and every inline item it collects carries that id, an argument index that exists in the command
   (`argPos < args.length`) and the script name.
-* `IdsAll` : for the 13 statement functions, the ids of the collected items lie in
-  `[nextCmdId at entry, nextCmdId at exit)`, the counter never decreases, and the items are owned by
-  the script name passed down.
+(The id-range invariant of the 13 statement functions is in HoistIds2.lean.)
 -/
 namespace Pory.Parser
 open Pory
 
-/-- `m` leaves the command counter alone. -/
-def KN {α} (m : PM α) : Prop := ∀ s, wp m s (fun _ s' => s'.nextCmdId = s.nextCmdId)
+/-- `m` changes only the token window (in particular not `nextCmdId`). -/
+def TFrame {α} (m : PM α) : Prop := ∀ s, wp m s (fun _ s' => ∃ l, s' = upd s l s.nextCmdId)
 
-theorem KN.wp_iff {α} {m : PM α} (hm : KN m) (s : PState) (Q : α → PState → Prop) :
-    wp m s Q ↔ ∀ a s', m.run s = .ok (a, s') → s'.nextCmdId = s.nextCmdId → Q a s' :=
-  wp_spec (hm s) Q
+theorem TFrame.wp_iff {α} {m : PM α} (hm : TFrame m) (s : PState) (Q : α → PState → Prop) :
+    wp m s Q ↔ ∀ a l, m.run s = .ok (a, upd s l s.nextCmdId) → Q a (upd s l s.nextCmdId) := by
+  constructor
+  · intro h a l hr; exact h a _ hr
+  · intro h a s' hr
+    obtain ⟨l, rfl⟩ := hm s a s' hr
+    exact h a l hr
 
-syntax "nfin" (" [" Lean.Parser.Tactic.simpLemma,* "]")? : tactic
+theorem tframe_refl (s : PState) : (∃ l, s = upd s l s.nextCmdId) ↔ True :=
+  iff_true_intro ⟨s.toks, rfl⟩
+theorem tframe_upd (s : PState) (l1 : List Tok) : (∃ l, upd s l1 s.nextCmdId = upd s l s.nextCmdId) ↔ True :=
+  iff_true_intro ⟨l1, rfl⟩
+
+theorem TFrame.frame {α} {m : PM α} (h : TFrame m) : Frame m := by
+  intro s a s' hr
+  obtain ⟨l, rfl⟩ := h s a s' hr
+  exact ⟨l, _, rfl⟩
+
+syntax "tsimp" (" [" Lean.Parser.Tactic.simpLemma,* "]")? : tactic
 macro_rules
-  | `(tactic| nfin) => `(tactic| repeat' (first | (exact True.intro) | rfl | (with_reducible intro _) | (swp) | (split) | (simp_all; done)))
-  | `(tactic| nfin [$ts,*]) => `(tactic| repeat' (first | (exact True.intro) | rfl | (with_reducible intro _) | (swp [$ts,*]) | (split) | (simp_all; done)))
+  | `(tactic| tsimp) => `(tactic| wpsimp [tframe_refl, tframe_upd])
+  | `(tactic| tsimp [$ts,*]) => `(tactic| wpsimp [tframe_refl, tframe_upd, $ts,*])
 
-theorem kn_parsePoryswitchHeader (env : Env) : KN (parsePoryswitchHeader env) := by
-  intro s; unfold parsePoryswitchHeader; nfin
+syntax "tfin" (" [" Lean.Parser.Tactic.simpLemma,* "]")? : tactic
+macro_rules
+  | `(tactic| tfin) => `(tactic| repeat' (first | trivial | tsimp | (intros; split)))
+  | `(tactic| tfin [$ts,*]) => `(tactic| repeat' (first | trivial | tsimp [$ts,*] | (intros; split)))
 
-theorem kn_parseScopeModifier (d : TT) : KN (parseScopeModifier d) := by
-  intro s; unfold parseScopeModifier; nfin
+theorem tframe_parsePoryswitchHeader (env : Env) : TFrame (parsePoryswitchHeader env) := by
+  intro s
+  unfold parsePoryswitchHeader
+  tsimp
 
-theorem kn_formatNamedParams : ∀ (n : Nat) (fp : FmtParams), KN (formatNamedParams n fp) := by
+theorem tframe_parseScopeModifier (d : TT) : TFrame (parseScopeModifier d) := by
+  intro s
+  unfold parseScopeModifier
+  tsimp
+
+theorem tframe_formatNamedParams : ∀ (n : Nat) (fp : FmtParams), TFrame (formatNamedParams n fp) := by
   intro n
   induction n with
-  | zero => intro fp s; rw [formatNamedParams]; nfin
-  | succ n ih => intro fp s; rw [formatNamedParams]; nfin [(ih _).wp_iff]
+  | zero => intro fp s; rw [formatNamedParams]; tsimp
+  | succ n ih =>
+    intro fp s
+    rw [formatNamedParams]
+    tsimp [(ih _).wp_iff]
 
-theorem kn_parseFormatStringOperator (env : Env) (n : Nat) : KN (parseFormatStringOperator env n) := by
+theorem tframe_parseFormatStringOperator (env : Env) (n : Nat) : TFrame (parseFormatStringOperator env n) := by
   intro s
   unfold parseFormatStringOperator
-  nfin [(kn_formatNamedParams _ _).wp_iff, wp_fmtMatch]
+  tsimp [(tframe_formatNamedParams _ _).wp_iff, wp_fmtMatch]
 
-theorem kn_parseTextValue (env : Env) (n : Nat) : KN (parseTextValue env n) := by
+theorem tframe_parseTextValue (env : Env) (n : Nat) : TFrame (parseTextValue env n) := by
   intro s
   unfold parseTextValue
-  nfin [(kn_parseFormatStringOperator _ _).wp_iff]
+  tsimp [(tframe_parseFormatStringOperator _ _).wp_iff]
 
-theorem kn_listBlock (env : Env) : ∀ n : Nat,
-    (∀ kind am acc, KN (parseListValue env kind am n acc)) ∧
-    (∀ kind, KN (parsePoryswitchListStatement env kind n)) ∧
-    (∀ kind tok acc, KN (parsePoryswitchListCases env kind tok n acc)) := by
+theorem tframe_listBlock (env : Env) : ∀ n : Nat,
+    (∀ kind am acc, TFrame (parseListValue env kind am n acc)) ∧
+    (∀ kind, TFrame (parsePoryswitchListStatement env kind n)) ∧
+    (∀ kind tok acc, TFrame (parsePoryswitchListCases env kind tok n acc)) := by
   intro n
   induction n with
   | zero =>
     refine ⟨?_, ?_, ?_⟩
-    · intro kind am acc s; rw [parseListValue]; nfin
-    · intro kind s; rw [parsePoryswitchListStatement]; nfin
-    · intro kind tok acc s; rw [parsePoryswitchListCases]; nfin
+    · intro kind am acc s; rw [parseListValue]; tsimp
+    · intro kind s; rw [parsePoryswitchListStatement]; tsimp
+    · intro kind tok acc s; rw [parsePoryswitchListCases]; tsimp
   | succ n ih =>
     obtain ⟨ih1, ih2, ih3⟩ := ih
     refine ⟨?_, ?_, ?_⟩
     · intro kind am acc s
       rw [parseListValue]
-      cases kind <;> nfin [(ih1 _ _ _).wp_iff, (ih2 _).wp_iff]
+      cases kind <;>
+        tsimp [(ih1 _ _ _).wp_iff, (ih2 _).wp_iff] <;>
+        (repeat' split)
+      all_goals (try tsimp [(ih1 _ _ _).wp_iff, (ih2 _).wp_iff])
+      all_goals ((repeat' split) <;> first | trivial | tsimp [(ih1 _ _ _).wp_iff, (ih2 _).wp_iff])
     · intro kind s
       rw [parsePoryswitchListStatement]
-      nfin [(ih3 _ _ _).wp_iff, (kn_parsePoryswitchHeader _).wp_iff]
+      tsimp [(ih3 _ _ _).wp_iff, (tframe_parsePoryswitchHeader _).wp_iff]
+      intros
+      (repeat' split) <;> tsimp
     · intro kind tok acc s
       rw [parsePoryswitchListCases]
-      nfin [(ih1 _ _ _).wp_iff, (ih3 _ _ _).wp_iff]
+      tsimp [(ih1 _ _ _).wp_iff, (ih3 _ _ _).wp_iff]
 
-theorem kn_parseListValue (env : Env) (kind : ListKind) (am : Bool) (n : Nat) (acc : List Tok) :
-    KN (parseListValue env kind am n acc) := (kn_listBlock env n).1 kind am acc
+theorem tframe_parseListValue (env : Env) (kind : ListKind) (am : Bool) (n : Nat) (acc : List Tok) :
+    TFrame (parseListValue env kind am n acc) := (tframe_listBlock env n).1 kind am acc
 
-theorem kn_parseMovesOperator (env : Env) (n : Nat) : KN (parseMovesOperator env n) := by
+theorem tframe_parseMovesOperator (env : Env) (n : Nat) : TFrame (parseMovesOperator env n) := by
   intro s
   unfold parseMovesOperator
-  nfin [(kn_parseListValue _ _ _ _ _).wp_iff]
+  tsimp [(tframe_parseListValue _ _ _ _ _).wp_iff]
 
-theorem kn_peekTokenIsAutoVar (env : Env) : KN (peekTokenIsAutoVar env) := by
-  intro s; unfold peekTokenIsAutoVar; nfin
+theorem tframe_peekTokenIsAutoVar (env : Env) : TFrame (peekTokenIsAutoVar env) := by
+  intro s
+  unfold peekTokenIsAutoVar
+  tsimp
 
-theorem kn_collectUntil (stop : Tok → Bool) (onEOF : PFail) :
-    ∀ (n : Nat) (parts : List String), KN (collectUntil stop onEOF n parts) := by
+theorem tframe_collectUntil (stop : Tok → Bool) (onEOF : PFail) :
+    ∀ (n : Nat) (parts : List String), TFrame (collectUntil stop onEOF n parts) := by
   intro n
   induction n with
-  | zero => intro parts s; rw [collectUntil]; nfin
-  | succ n ih => intro parts s; rw [collectUntil]; nfin [(ih _).wp_iff]
+  | zero => intro parts s; rw [collectUntil]; tsimp
+  | succ n ih => intro parts s; rw [collectUntil]; tsimp [(ih _).wp_iff]
 
-theorem kn_valueLoop (vt : Tok) : ∀ (n k : Nat) (parts : List String), KN (valueLoop vt n k parts) := by
+theorem tframe_valueLoop (vt : Tok) :
+    ∀ (n k : Nat) (parts : List String), TFrame (valueLoop vt n k parts) := by
   intro n
   induction n with
-  | zero => intro k parts s; rw [valueLoop]; nfin
-  | succ n ih => intro k parts s; rw [valueLoop]; nfin [(ih _ _).wp_iff]
+  | zero => intro k parts s; rw [valueLoop]; tsimp
+  | succ n ih => intro k parts s; rw [valueLoop]; tsimp [(ih _ _).wp_iff]
 
-theorem kn_collectUntilRange (st : Tok) :
-    ∀ (n : Nat) (parts : List String), KN (parseConditionVarOperator.collectUntilRange st n parts) := by
+theorem tframe_collectUntilRange (st : Tok) :
+    ∀ (n : Nat) (parts : List String), TFrame (parseConditionVarOperator.collectUntilRange st n parts) := by
   intro n
   induction n with
-  | zero => intro parts s; rw [parseConditionVarOperator.collectUntilRange]; nfin
-  | succ n ih => intro parts s; rw [parseConditionVarOperator.collectUntilRange]; nfin [(ih _).wp_iff]
+  | zero => intro parts s; rw [parseConditionVarOperator.collectUntilRange]; tsimp
+  | succ n ih => intro parts s; rw [parseConditionVarOperator.collectUntilRange]; tsimp [(ih _).wp_iff]
 
-theorem kn_parseConditionVarOperator (e : OpExpr) (n : Nat) : KN (parseConditionVarOperator e n) := by
+theorem tframe_parseConditionVarOperator (e : OpExpr) (n : Nat) : TFrame (parseConditionVarOperator e n) := by
   intro s
   unfold parseConditionVarOperator
-  nfin [(kn_valueLoop _ _ _ _).wp_iff, (kn_collectUntilRange _ _ _).wp_iff]
+  tsimp [(tframe_valueLoop _ _ _ _).wp_iff, (tframe_collectUntilRange _ _ _).wp_iff]
 
-theorem kn_parseConditionFlagLikeOperator (e : OpExpr) (nm : String) :
-    KN (parseConditionFlagLikeOperator e nm) := by
-  intro s; unfold parseConditionFlagLikeOperator; nfin
+theorem tframe_parseConditionFlagLikeOperator (e : OpExpr) (nm : String) :
+    TFrame (parseConditionFlagLikeOperator e nm) := by
+  intro s
+  unfold parseConditionFlagLikeOperator
+  tsimp
 
-theorem kn_tryParseLabelStatement : KN tryParseLabelStatement := by
-  intro s; unfold tryParseLabelStatement; nfin
+theorem tframe_tryParseLabelStatement : TFrame tryParseLabelStatement := by
+  intro s
+  unfold tryParseLabelStatement
+  tsimp
 
-theorem kn_switchOperandLoop (ot : Tok) :
-    ∀ (n : Nat) (parts : List String), KN (parseSwitchStatement.switchOperandLoop ot n parts) := by
+theorem tframe_switchOperandLoop (ot : Tok) :
+    ∀ (n : Nat) (parts : List String), TFrame (parseSwitchStatement.switchOperandLoop ot n parts) := by
   intro n
   induction n with
-  | zero => intro parts s; rw [parseSwitchStatement.switchOperandLoop]; nfin
-  | succ n ih => intro parts s; rw [parseSwitchStatement.switchOperandLoop]; nfin [(ih _).wp_iff]
+  | zero => intro parts s; rw [parseSwitchStatement.switchOperandLoop]; tsimp
+  | succ n ih => intro parts s; rw [parseSwitchStatement.switchOperandLoop]; tsimp [(ih _).wp_iff]
 
-theorem kn_tableCollect (stop : Tok → Bool) (onEOF : PFail) :
-    ∀ (n : Nat) (acc : String), KN (tableCollect stop onEOF n acc) := by
+theorem tframe_tableCollect (stop : Tok → Bool) (onEOF : PFail) :
+    ∀ (n : Nat) (acc : String), TFrame (tableCollect stop onEOF n acc) := by
   intro n
   induction n with
-  | zero => intro acc s; rw [tableCollect]; nfin
-  | succ n ih => intro acc s; rw [tableCollect]; nfin [(ih _).wp_iff]
+  | zero => intro acc s; rw [tableCollect]; tsimp
+  | succ n ih => intro acc s; rw [tableCollect]; tsimp [(ih _).wp_iff]
 
-theorem kn_constLoop : ∀ (n : Nat) (acc : String), KN (constLoop n acc) := by
+theorem tframe_constLoop : ∀ (n : Nat) (acc : String), TFrame (constLoop n acc) := by
   intro n
   induction n with
-  | zero => intro acc s; rw [constLoop]; nfin
-  | succ n ih => intro acc s; rw [constLoop]; nfin [(ih _).wp_iff]
+  | zero => intro acc s; rw [constLoop]; tsimp
+  | succ n ih => intro acc s; rw [constLoop]; tsimp [(ih _).wp_iff]
+
+theorem tframe_poryswitchTextCases (env : Env) (tok : Tok) :
+    ∀ (n : Nat) (acc : List (String × String × String)), TFrame (poryswitchTextCases env tok n acc) := by
+  intro n
+  induction n with
+  | zero => intro acc s; rw [poryswitchTextCases]; tsimp
+  | succ n ih =>
+    intro acc s
+    rw [poryswitchTextCases]
+    tsimp [(ih _).wp_iff, (tframe_parseTextValue _ _).wp_iff]
+
+theorem tframe_parsePoryswitchTextStatement (env : Env) (n : Nat) :
+    TFrame (parsePoryswitchTextStatement env n) := by
+  intro s
+  unfold parsePoryswitchTextStatement
+  tsimp [(tframe_parsePoryswitchHeader _).wp_iff, (tframe_poryswitchTextCases _ _ _ _).wp_iff]
+  tfin
+
+theorem tframe_parseRawStatement : TFrame parseRawStatement := by
+  intro s; unfold parseRawStatement; tsimp
+
+theorem tframe_parseMovementStatement (env : Env) (n : Nat) : TFrame (parseMovementStatement env n) := by
+  intro s
+  unfold parseMovementStatement
+  tsimp [(tframe_parseScopeModifier _).wp_iff, (tframe_parseListValue _ _ _ _ _).wp_iff]
+
+theorem tframe_mapM_tryReplace : ∀ (l : List Tok),
+    TFrame (l.mapM fun t => tryReplaceWithConstant t.lit) := by
+  intro l
+  induction l with
+  | nil => intro s; simp only [List.mapM_nil]; tsimp
+  | cons x r ih => intro s; simp only [List.mapM_cons]; tsimp [(ih).wp_iff]
+
+theorem tframe_parseMartStatement (env : Env) (n : Nat) : TFrame (parseMartStatement env n) := by
+  intro s
+  unfold parseMartStatement
+  tsimp [(tframe_parseScopeModifier _).wp_iff, (tframe_parseListValue _ _ _ _ _).wp_iff,
+    (tframe_mapM_tryReplace _).wp_iff]
+
+/-! ### the items of one command statement -/
+
+/-- The number of arguments the command under construction will have at least. -/
+def cap (a : CmdAcc) : Nat := a.args.length + (if a.argParts.length > 0 then 1 else 0)
+
+/-- All items carry the command id `id`, an argument index below `bound`, and the owner `sn`. -/
+def ItemsOf (id : Nat) (sn : String) (bound : Nat) (d : ImpData) : Prop :=
+  (∀ t ∈ d.texts, t.cmdId = id ∧ t.argPos < bound ∧ t.scriptName = sn) ∧
+  (∀ m ∈ d.movements, m.cmdId = id ∧ m.argPos < bound ∧ m.scriptName = sn)
+
+theorem ItemsOf.mono {id sn b b' d} (h : ItemsOf id sn b d) (hb : b ≤ b') : ItemsOf id sn b' d :=
+  ⟨fun t ht => ⟨(h.1 t ht).1, Nat.lt_of_lt_of_le (h.1 t ht).2.1 hb, (h.1 t ht).2.2⟩,
+   fun m hm => ⟨(h.2 m hm).1, Nat.lt_of_lt_of_le (h.2 m hm).2.1 hb, (h.2 m hm).2.2⟩⟩
+
+theorem ite_prop_intro {c : Prop} [Decidable c] {p q : Prop} (hp : c → p) (hq : ¬ c → q) :
+    (if c then p else q) := by
+  split
+  · exact hp ‹_›
+  · exact hq ‹_›
+
+theorem itemsOf_text {id sn b} {d : ImpData} (h : ItemsOf id sn b d) (t : ImpText)
+    (ht : t.cmdId = id ∧ t.argPos < b ∧ t.scriptName = sn) :
+    ItemsOf id sn b { texts := d.texts ++ [t], movements := d.movements } := by
+  refine ⟨?_, h.2⟩
+  intro x hx
+  rcases List.mem_append.1 hx with hx | hx
+  · exact h.1 x hx
+  · rw [List.mem_singleton] at hx; subst hx; exact ht
+
+theorem itemsOf_move {id sn b} {d : ImpData} (h : ItemsOf id sn b d) (m : ImpMovement)
+    (hm : m.cmdId = id ∧ m.argPos < b ∧ m.scriptName = sn) :
+    ItemsOf id sn b { texts := d.texts, movements := d.movements ++ [m] } := by
+  refine ⟨h.1, ?_⟩
+  intro x hx
+  rcases List.mem_append.1 hx with hx | hx
+  · exact h.2 x hx
+  · rw [List.mem_singleton] at hx; subst hx; exact hm
+
+theorem cmdArgsLoop_slots (env : Env) (sn : String) (id : Nat) (tok : Tok) :
+    ∀ (n : Nat) (a : CmdAcc) (s : PState), ItemsOf id sn (cap a) a.imp →
+    wp (cmdArgsLoop env sn id tok n a) s (fun r s' =>
+      s'.nextCmdId = s.nextCmdId ∧ ItemsOf id sn (cap r) r.imp) := by
+  intro n
+  induction n with
+  | zero => intro a s _; rw [cmdArgsLoop]; tsimp
+  | succ n ih =>
+    intro a s h
+    rw [cmdArgsLoop]
+    tsimp [(tframe_parseFormatStringOperator _ _).wp_iff, (tframe_parseMovesOperator _ _).wp_iff]
+    have step : ∀ (a' : CmdAcc) (l : List Tok), ItemsOf id sn (cap a') a'.imp →
+        wp (cmdArgsLoop env sn id tok n a') (upd s l s.nextCmdId)
+          (fun r s' => s'.nextCmdId = s.nextCmdId ∧ ItemsOf id sn (cap r) r.imp) := by
+      intro a' l h'
+      refine wp_mono (ih a' _ h') ?_
+      intro r s' hq; exact ⟨hq.1.trans (upd_nextCmdId _ _ _), hq.2⟩
+    have hc1 : ∀ (x : String) (k : Nat) (d : ImpData),
+        cap { args := a.args, argParts := a.argParts ++ [x], numOpenParens := k, imp := d } =
+          a.args.length + 1 := by
+      intro x k d; simp [cap]
+    have hc2 : ∀ (x : String) (k : Nat) (d : ImpData),
+        cap { args := a.args ++ [x], numOpenParens := k, imp := d } = a.args.length + 1 := by
+      intro x k d; simp [cap]
+    have hc0 : cap a ≤ a.args.length + 1 := by unfold cap; split <;> omega
+    repeat' (first
+      | trivial
+      | exact ⟨trivial, h⟩
+      | (apply ite_prop_intro <;> intro _)
+      | (intros; apply step; first
+          | (rw [hc2]; exact h.mono hc0)
+          | (rw [hc1]; exact h.mono hc0)
+          | (rw [hc1]; exact itemsOf_text (h.mono hc0) _ ⟨rfl, Nat.lt_succ_self _, rfl⟩)
+          | (rw [hc1]; exact itemsOf_move (h.mono hc0) _ ⟨rfl, Nat.lt_succ_self _, rfl⟩)))
+
+theorem itemsOf_empty (id : Nat) (sn : String) (b : Nat) : ItemsOf id sn b {} :=
+  ⟨fun _ h => absurd h List.not_mem_nil, fun _ h => absurd h List.not_mem_nil⟩
+
+/-- **One command statement**: it takes the id `nextCmdId` and increments the counter by one; every
+inline item it collects carries that id, an argument index that exists in the command, and the owner. -/
+theorem parseCommandStatement_slots (env : Env) (sn : String) (n : Nat) (s : PState) :
+    wp (parseCommandStatement env sn n) s (fun r s' =>
+      r.1.id = s.nextCmdId ∧ s'.nextCmdId = s.nextCmdId + 1 ∧ ItemsOf r.1.id sn r.1.args.length r.2) := by
+  unfold parseCommandStatement
+  tsimp [wp_bumpCmdId]
+  apply ite_prop_intro <;> intro _
+  · refine wp_mono (cmdArgsLoop_slots env sn s.nextCmdId _ n {} _ (itemsOf_empty _ _ _)) ?_
+    intro a s1 hq
+    refine ⟨trivial, hq.1.trans (upd_nextCmdId _ _ _), ?_⟩
+    have : (if a.argParts.length > 0 then a.args ++ [joinSp a.argParts] else a.args).length = cap a := by
+      unfold cap; split <;> simp
+    rw [this]; exact hq.2
+  · exact ⟨trivial, trivial, itemsOf_empty _ _ _⟩
 
 end Pory.Parser
